@@ -450,6 +450,8 @@ def catalogue_obligations(R, tier, known_nonuniform):
 
 
 def run(R):
+    from engine.canary import run_canaries
+    run_canaries(R, ('symx',))
     R.assume('A4', 'A6')
     R.trust('os.listdir / glob / json / open behave as a file system (A4)')
     regex_obligations(R)
